@@ -34,6 +34,23 @@ FORBIDDEN = re.compile(
     re.M)
 
 
+
+def _drop_realtime_capability():
+    """The encoder library switches the calling thread to SCHED_FIFO priority 99 (enc_switch_to_real_time, EbEncHandle.c) and
+    every worker inherits it; as root that succeeds and the harness processes starve everything else on the machine (shells,
+    watchdogs, other checks).  Removing CAP_SYS_NICE from the capability bounding set of this process makes the
+    pthread_setschedparam call in every child fail with EPERM (the library ignores the result).  Scheduling class is not part
+    of any property."""
+    try:
+        import ctypes
+        ctypes.CDLL(None, use_errno=True).prctl(24, 23, 0, 0, 0)     # PR_CAPBSET_DROP, CAP_SYS_NICE
+    except Exception:
+        pass
+
+
+_drop_realtime_capability()
+
+
 def log(*a):
     print(*a, file=sys.stderr, flush=True)
 
